@@ -37,6 +37,12 @@ def whole(text):
 
 
 def span_of(text, sub, nth=0):
+    if re.fullmatch(r'\w+', sub):
+        # identifiers: whole-word occurrences only ('a' is not the a of 'lambda' / 'class' / 'async')
+        ms = [m for m in re.finditer(r'(?<![\w])%s(?![\w])' % re.escape(sub), text) if text[:m.start()].rstrip()[-6:] not in ('lambda',) or True]
+        ms = [m for m in ms if m.group(0) == sub and not (m.start() == 0 and sub in ('lambda', 'def', 'class', 'async'))]
+        m = ms[nth]
+        return (m.start(), m.end())
     i = -1
     for _ in range(nth + 1):
         i = text.index(sub, i + 1)
@@ -179,7 +185,8 @@ class C04(Property):
         # every rule in every host, fixed operands
         for ri in range(40):
             for hi in range(len(EXPR_HOSTS) + len(STMT_HOSTS)):
-                yield {'k': 'rule', 'seed': [ri, hi], 'rule_index': ri, 'host_index': hi, 'pre': '', 'post': ''}
+                for variant in range(3):
+                    yield {'k': 'rule', 'seed': [ri, hi, variant], 'rule_index': ri, 'host_index': hi, 'pre': '', 'post': ''}
 
     def gen(self, cs, ctx):
         seed = list(cs.bytes(24))
@@ -194,7 +201,11 @@ class C04(Property):
 
     def build(self, case):
         """-> (rule id, text, (abs span) or None, expected predicate, compile_gate) or None"""
-        cs = ChoiceStream(bytes(b % 256 for b in case['seed']) + bytes(64))
+        # every rule draws from this stream in turn: expand the seed so that the later rules of the catalogue still get
+        # varied choices (with a short stream they always fell back to their first variant)
+        import hashlib
+        sd = bytes(b % 256 for b in case['seed'])
+        cs = ChoiceStream(b''.join(hashlib.blake2b(sd + bytes([j])).digest() for j in range(12)))
         g = PyGen(ChoiceStream(bytes((b * 7 + 3) % 256 for b in case['seed']) * 4), budget=5, fstrings=False, soft_kw=False, ascii_only=False)
         rs = rules(cs, g)
         rid, kind, text, span, pred, gate = rs[case['rule_index'] % len(rs)]
